@@ -46,8 +46,8 @@ Record st := St {
   s_filed : N;         (* hasher the stored elements are filed under *)
   s_log : log;
   s_fuse : option N;   (* Some n: the (n+1)-th callback from now panics *)
-  s_on : N;            (* oracle: how many of this operation's main-table insertions reuse a
-                          tombstone / how many of its main-table removals leave one *)
+  s_on : N;            (* oracle: how many of this call's main-table insertions reuse a tombstone *)
+  s_tomb : N;          (* oracle: how many of this call's main-table removals leave one *)
   s_perm : list N;     (* oracle: iteration order of the main table (keys) before the call *)
   s_qperm : list N     (* oracle: what the cached iterator over a newly installed old table still
                           holds after the call, in its order (keys) *)
@@ -68,12 +68,13 @@ Definition rt_abs (r : rt) : gmap N elem :=
   hel (main r) ∪ match lo r with Some o => list_to_emap (orem o) | None => ∅ end.
 
 (* ------------------------------------------------------------ state updates *)
-Definition set_rt (r : rt) (s : st) : st := St r (s_hs s) (s_filed s) (s_log s) (s_fuse s) (s_on s) (s_perm s) (s_qperm s).
-Definition set_log (l : log) (s : st) : st := St (s_rt s) (s_hs s) (s_filed s) l (s_fuse s) (s_on s) (s_perm s) (s_qperm s).
-Definition set_fuse (f : option N) (s : st) : st := St (s_rt s) (s_hs s) (s_filed s) (s_log s) f (s_on s) (s_perm s) (s_qperm s).
-Definition set_on (n : N) (s : st) : st := St (s_rt s) (s_hs s) (s_filed s) (s_log s) (s_fuse s) n (s_perm s) (s_qperm s).
-Definition set_hs (h : N) (s : st) : st := St (s_rt s) h (s_filed s) (s_log s) (s_fuse s) (s_on s) (s_perm s) (s_qperm s).
-Definition set_filed (h : N) (s : st) : st := St (s_rt s) (s_hs s) h (s_log s) (s_fuse s) (s_on s) (s_perm s) (s_qperm s).
+Definition set_rt (r : rt) (s : st) : st := St r (s_hs s) (s_filed s) (s_log s) (s_fuse s) (s_on s) (s_tomb s) (s_perm s) (s_qperm s).
+Definition set_log (l : log) (s : st) : st := St (s_rt s) (s_hs s) (s_filed s) l (s_fuse s) (s_on s) (s_tomb s) (s_perm s) (s_qperm s).
+Definition set_fuse (f : option N) (s : st) : st := St (s_rt s) (s_hs s) (s_filed s) (s_log s) f (s_on s) (s_tomb s) (s_perm s) (s_qperm s).
+Definition set_on (n : N) (s : st) : st := St (s_rt s) (s_hs s) (s_filed s) (s_log s) (s_fuse s) n (s_tomb s) (s_perm s) (s_qperm s).
+Definition set_tomb (n : N) (s : st) : st := St (s_rt s) (s_hs s) (s_filed s) (s_log s) (s_fuse s) (s_on s) n (s_perm s) (s_qperm s).
+Definition set_hs (h : N) (s : st) : st := St (s_rt s) h (s_filed s) (s_log s) (s_fuse s) (s_on s) (s_tomb s) (s_perm s) (s_qperm s).
+Definition set_filed (h : N) (s : st) : st := St (s_rt s) (s_hs s) h (s_log s) (s_fuse s) (s_on s) (s_tomb s) (s_perm s) (s_qperm s).
 
 Notation M' := (M st).
 
@@ -115,6 +116,9 @@ Definition tick_hash : M' unit := tick log_hash ;;; cb.
 Definition take_bit : M' bool :=
   s <- get ;;
   if s_on s =? 0 then ret false else put (set_on (s_on s - 1) s) ;;; ret true.
+Definition take_tomb : M' bool :=
+  s <- get ;;
+  if s_tomb s =? 0 then ret false else put (set_tomb (s_tomb s - 1) s) ;;; ret true.
 
 (* the oracle's order for the elements of [m]: must be a permutation of its keys *)
 Definition order_of (m : gmap N elem) (ks : list N) : option (list elem) :=
